@@ -770,25 +770,39 @@ func ruleLegacyNoRaw(c *Check, p *Program, rule string) {
 		if !ok || sl.High == nil || !(loadField(sl.X) == "FrameDataBlock.data" || derivesFromField(sl.X, "FrameDataBlock.data")) {
 			return
 		}
-		call, isC := sl.High.(*ssa.Call)
-		if !isC {
+		judge := func(h ssa.Value, ats []Atom) {
+			call, isC := h.(*ssa.Call)
+			if !isC {
+				return
+			}
+			bi, isB := call.Call.Value.(*ssa.Builtin)
+			if !isB {
+				return
+			}
+			switch bi.Name() {
+			case "cap":
+				if hasAtom(ats, "legacy", "", true) {
+					whole = true
+				}
+			case "len":
+				if len(cp.Params) > 2 && call.Call.Args[0] == ssa.Value(cp.Params[2]) && !hasAtom(ats, "legacy", "", false) {
+					cut = p.InstrPos(in)
+				}
+			}
+		}
+		if ph, isPhi := sl.High.(*ssa.Phi); isPhi {
+			// the length chosen in branches: each choice is judged with the guards of the edge it arrives on
+			for i, e := range ph.Edges {
+				pb := ph.Block().Preds[i]
+				ats := append([]Atom{}, atomsOfBlock(pb)...)
+				if ifi, isIf := pb.Instrs[len(pb.Instrs)-1].(*ssa.If); isIf && len(pb.Succs) == 2 && pb.Succs[0] != pb.Succs[1] {
+					ats = append(ats, atomOf(ifi.Cond, pb.Succs[0] == ph.Block()))
+				}
+				judge(e, ats)
+			}
 			return
 		}
-		bi, isB := call.Call.Value.(*ssa.Builtin)
-		if !isB {
-			return
-		}
-		ats := atomsOfBlock(in.Block())
-		switch bi.Name() {
-		case "cap":
-			if hasAtom(ats, "legacy", "", true) {
-				whole = true
-			}
-		case "len":
-			if len(cp.Params) > 2 && call.Call.Args[0] == ssa.Value(cp.Params[2]) && !hasAtom(ats, "legacy", "", false) {
-				cut = p.InstrPos(in)
-			}
-		}
+		judge(sl.High, atomsOfBlock(in.Block()))
 	})
 	c.Cond(whole && cut == "", rule, "Compress#legacy-destination-not-cut-to-source", p.Pos(cp.Pos()), "for a legacy frame the block compressor is given the whole block buffer; the destination is cut to len(src) (to provoke the raw fallback on incompressible data) only for non-legacy frames", "data[:cap(data)] under legacy; data[:len(src)] only under !legacy", fmt.Sprintf("whole buffer used under legacy: %v; destination cut to len(src) without a !legacy guard at: %s - every incompressible legacy block, not only a full 8 MiB one, is stored with the raw flag", whole, cut))
 }
